@@ -1378,6 +1378,44 @@ reg(Contract('dd.bdd.reorder_to_pairs', [('bdd', 'mgr'), ('pairs', 'dict:name->n
                   'another); rests on _shift and thereby on the ASSUMED order effect of swap'))
 
 
+# ---------------------------------------------------------------------------------------------------------------
+# undeclare_vars (C14, C17): the refusals, as a prefix contract (the rebuilding of the tables by comprehensions is outside the generator;
+# its effect is the observed contract in contracts_reorder.py)
+def und_in_use(S, l):
+    u2 = Int('u!und')
+    return Exists([u2], And(S.dom[u2], S.lvl[u2] == l))
+
+
+def und_refused(c):
+    S, a = c.S0, c.a
+    kk = Int('k!und')
+    return Exists([kk], And(0 <= kk, kk < a.vrs.n, Or(Not(S.vin[a.vrs.arr[kk]]), und_in_use(S, S.v2l[a.vrs.arr[kk]]))))
+
+
+def und_inv0(c):
+    S, a = c.mgrs['self'], c.env['vrs']
+    return [('declared-so-far', ForAll([k_], Implies(And(0 <= k_, k_ < c.idx), S.vin[a.arr[k_]]), patterns=[a.arr[k_]])),
+            ('nothing-modified', M.keep(c.entry['self'], S))]
+
+
+def und_inv1(c):
+    S, a = c.mgrs['self'], c.env['vrs']
+    return [('all-declared', ForAll([k_], Implies(And(0 <= k_, k_ < a.n), S.vin[a.arr[k_]]), patterns=[a.arr[k_]])),
+            ('unused-so-far', ForAll([k_], Implies(And(0 <= k_, k_ < c.idx), Not(und_in_use(S, S.v2l[a.arr[k_]]))), patterns=[a.arr[k_]])),
+            ('nothing-modified', M.keep(c.entry['self'], S))]
+
+
+_k = reg(Contract('dd.bdd.BDD.undeclare_vars!refusals', [('self', 'mgr'), ('vrs', 'list:name')],
+                  pre=lambda c: wf(c.S, ORD), post=lambda c: [], ret='set:name', uses=ORD,
+                  raises={'ValueError': Raise(when=und_refused, must=True)}, loops={0: dict(inv=und_inv0), 1: dict(inv=und_inv1)},
+                  note='only the refusals of undeclare_vars: execution is cut at `if vrs:` (before anything is rebuilt); proved: ValueError with '
+                       'nothing modified iff a named variable is undeclared or its level still holds a node; otherwise the rebuilding is '
+                       'reached with every named variable declared and unused'))
+_k.stop_at = lambda st: isinstance(st, ast.If) and isinstance(st.test, ast.Name) and st.test.id == 'vrs'
+_k.stop_post = lambda c: [('nothing-modified', And(*[M.keep(c.mgrs0[k], c.mgrs[k]) for k in c.mgrs0])),
+                          ('named-variables-declared-and-unused', Not(und_refused(c)))]
+
+
 def P_of(S, order, l):
     """target position of the variable that sits at level l"""
     return order.val[S.l2v[l]]
